@@ -4,7 +4,7 @@
    A database is a function  table name -> sequence of rows (insertion order is irrelevant, results
    are compared as bags);  a row is [id |-> Int, c |-> sequence of canonical column values]
    (id = 0 in link tables, "NULL" is the SQL null).  A table description (meta) is
-       [go, primary, cols (field names), fks : Seq([field, ref, ondelete]), uniques : Seq(Seq(field))]
+       [go, primary, cols (field names), fks : Seq([field, ref, ondelete, nullable]), uniques : Seq(Seq(field))]
    which the harness derives from the abstract model file, NOT from the generated code.
 
    Constraints are the ones the generated schema declares: serial ids, UNIQUE sets (a NULL never
@@ -69,11 +69,16 @@ Cascade(meta, db, tn, ids, depth) ==
         after == Step[Len(pairs)]
     IN [after EXCEPT ![tn] = KeepIdx(@, {i \in 1..Len(@) : @[i].id \notin ids})]
 
-\* DELETE of the rows at positions pos of table t (primary or link)
+\* a foreign key column that is NOT NULL (a plain int64 field) cannot be SET NULL: the statement fails
+NotNullOK(meta, db) == \A n \in 1..Len(meta) : \A k \in 1..Len(meta[n].fks) :
+    meta[n].fks[k].nullable \/ \A i \in 1..Len(db[meta[n].go]) : Val(meta[n], db[meta[n].go][i], meta[n].fks[k].field) # Null
+
+\* DELETE of the rows at positions pos of table t (primary or link): [ok, db, errs = acceptable error classes]
 DeleteAt(meta, db, t, pos) ==
     LET d == IF t.primary THEN Cascade(meta, db, t.go, {db[t.go][i].id : i \in pos}, 0)
              ELSE [db EXCEPT ![t.go] = KeepIdx(@, (1..Len(@)) \ pos)]
-    IN IF Integrity(meta, d) THEN [ok |-> TRUE, db |-> d] ELSE [ok |-> FALSE, db |-> db]
+        errs == (IF Integrity(meta, d) THEN {} ELSE {"fk"}) \cup (IF NotNullOK(meta, d) THEN {} ELSE {"notnull"})
+    IN IF errs = {} THEN [ok |-> TRUE, db |-> d, errs |-> {}] ELSE [ok |-> FALSE, db |-> db, errs |-> errs]
 
 (* ---- matching ---- *)
 \* rows of t whose field equals one of the canonical values (a NULL never matches)
